@@ -250,8 +250,12 @@ class Site:
                 if p.get("redirects"):
                     final, chain = self.resolve(t)
                     for a, b in chain:
-                        if {"from": a, "to": b} not in redirects:
-                            redirects.append({"from": a, "to": b})
+                        ent = {"from": a, "to": b}
+                        fm = re.match(r"^\s*#\w+\s*:?\s*\[\[[^\]|#]+#([^\]|]+)", self.current_text(a) or "")
+                        if fm:
+                            ent["tofragment"] = fm.group(1)  # a redirect into a section
+                        if ent not in redirects:
+                            redirects.append(ent)
                     if final is None:
                         continue  # circular: nothing to report
                 if final in self.pages and self.current_text(final) is not None:
@@ -597,6 +601,13 @@ def gen_spec(rng, size="small"):
         revs = [[next_rev(), article_text()] for _ in range(rng.randint(1, 4))]
         us, anon = users()
         pages[an] = {"revs": revs, "users": us, "anon": anon}
+    # the shared repository numbers its revisions on its own: a description page there may carry the
+    # very revision id of one of our articles; and a file may have been uploaded without any description
+    for n_ in sorted(images):
+        if images[n_]["host"] == "commons" and rng.random() < 0.25:
+            images[n_]["descrev"] = rng.choice(pages[rng.choice(anames)]["revs"])[0]
+        if rng.random() < 0.08:
+            images[n_]["desc"] = ""
     # redirects: chains of length 1-3, cycles, dead ends
     redirs = []
     for i in range(rng.randint(0, 3)):
@@ -607,7 +618,8 @@ def gen_spec(rng, size="small"):
             to = names[k + 1] if k + 1 < length else target
             us, anon = users()
             kw = rng.choice(["#REDIRECT", "#redirect", "#REDIRECT"]) if lang == "en" else rng.choice(["#REDIRECT", "#WEITERLEITUNG"])
-            pages[n] = {"revs": [[next_rev(), f"{kw} [[{to}]]"]], "users": us, "anon": anon}
+            frag = "#Overview" if rng.random() < 0.2 else ""  # a redirect into a section of its target
+            pages[n] = {"revs": [[next_rev(), f"{kw} [[{to}{frag}]]"]], "users": us, "anon": anon}
         redirs.append(names[0])
     special = []
     if rng.random() < 0.3:
